@@ -16,43 +16,11 @@ fn list5(xs: &[i64; N], dotted: bool) -> Value {
     v
 }
 
-/// Cloning a 5-element list of atoms needs at most recursion depth 3 in Value::clone (list -> cell -> element),
-/// independent of the number of elements.
-/// @bound lists of exactly 5 atoms, proper and dotted; recursion bound 3
-/// @unwindset <lexpr::Value as std::clone::Clone>::clone:3
-/// @unwind_is_claim yes
-/// @native_witness stack:clone
-/// @timeout 900
-#[kani::proof]
-#[kani::unwind(8)]
-fn c16_clone() {
-    let xs: [i64; N] = kani::any();
-    let v = list5(&xs, kani::any());
-    let w = v.clone();
-    assert!(w.is_cons());
-    core::mem::forget(v);
-    core::mem::forget(w);
-}
-
-/// Comparing two 5-element lists needs at most recursion depth 3 in Value::eq.
-/// @bound two lists of exactly 5 atoms; recursion bound 3
-/// @unwindset <lexpr::Value as std::cmp::PartialEq>::eq:3; <lexpr::Value as std::cmp::PartialEq>::ne:3
-/// @unwind_is_claim yes
-/// @native_witness stack:eq
-/// @timeout 900
-#[kani::proof]
-#[kani::unwind(8)]
-fn c16_eq() {
-    let xs: [i64; N] = kani::any();
-    let ys: [i64; N] = kani::any();
-    let d: bool = kani::any();
-    let v = list5(&xs, d);
-    let w = list5(&ys, d);
-    let same = xs[0] == ys[0] && xs[1] == ys[1] && xs[2] == ys[2] && xs[3] == ys[3] && xs[4] == ys[4];
-    assert!((v == w) == same);
-    core::mem::forget(v);
-    core::mem::forget(w);
-}
+// NOTE: harnesses `c16_clone` / `c16_eq` (recursion bound 3 on Value::clone / Value::eq for a 5-element list) found the
+// recursive derived implementations (recursion unwinding assertion after 485 s / 61 s) and were the trigger for the two
+// fixes in /repo. On the repaired, iterative code CBMC does not finish within 900 s (the loop assigns through
+// `set_cdr`, whose drop glue is the known blow-up), so the claim moved to E2 (`mirsym/c16.py`), which decides the same
+// thing on the MIR: no nested Value-level call on a cdr that is itself a pair.
 
 /// Indexing, cell / element iteration, the by-reference vector conversion and the list predicates on a 5-element list
 /// use no recursion through Value at all (bound 1 on every list-walking function involved).
